@@ -77,4 +77,63 @@ theorem oldL_ne_newL : absOfL P L d0L ≠ newAbsL := by
   rw [hlogL]
   decide
 
+/-! ### the same commit, started while the previous sync's WAL truncation is still un-synced -/
+
+/-- the old state with the previous (applied) WAL still on disk -/
+def d0P : D := { d0L with wal := some (1, []) }
+
+/-- the state the operation starts in: the truncation of that WAL was issued and has ended, no fsync covers it yet -/
+def s0P : CState Nat TMeta (Nat × List (Nat × Nat)) Nat := ⟨d0P, [⟨100, .walSet none, true⟩], []⟩
+
+theorem hinertP : ∀ b, htView P s0P.dur b = s0P.dur.pages File.fHt b := fun _ => rfl
+
+theorem hvol0P : ∀ e ∈ s0P.volEffs, AllowedPreL' P L s0P.dur e := by
+  intro e he
+  simp [s0P, CState.volEffs] at he
+  subst he; trivial
+
+theorem goodP_ord : cAll ordChk 0 s0P goodL := by
+  simp [s0P, goodL, cpreL, crestL, cAll, ordChk, nextPhase, cstep, markEnded, takeCSync, flush, covered, coverable,
+    Eff.file, Eff.isMeta]
+
+theorem hwalP : (crun s0P cpreL).dur.wal = some w1 := by
+  simp [s0P, cpreL, crun, cstep, markEnded, takeCSync, flush, covered, coverable, Eff.file, applyEffs, applyEff]
+
+theorem hlogP : (crun s0P cpreL).dur.log = [1, 2, 3] := by
+  simp [s0P, cpreL, crun, cstep, markEnded, takeCSync, flush, covered, coverable, Eff.file, applyEffs, applyEff]
+
+theorem goodP_phase : phRun 0 s0P goodL = 2 := by
+  simp [s0P, goodL, cpreL, crestL, phRun, nextPhase, cstep, markEnded, takeCSync, flush, covered, coverable,
+    Eff.file, Eff.isMeta]
+
+theorem goodP_cont : cAll (contChk (AllowedPreL' P L s0P.dur) (contPostL P L (crun s0P cpreL).dur m1 w1)) 0 s0P goodL := by
+  have hlog := hlogP
+  generalize (crun s0P cpreL).dur = dA at hlog
+  simp [s0P, goodL, cpreL, crestL, cAll, contChk, nextPhase, cstep, markEnded, takeCSync, flush, covered, coverable,
+    Eff.file, Eff.isMeta]
+  refine ⟨?_, trivial, ⟨Or.inl rfl, fun h => absurd h.2 (by decide)⟩, ?_, ?_, ⟨⟨rfl, rfl⟩, fun h => h.elim⟩,
+    trivial, fun _ => ?_⟩
+  · show absLog L d0P.mt [1, 2, 3] = absLog L d0P.mt d0P.log
+    decide
+  · show (2 : Nat) ≠ 1
+    decide
+  · show absLog L m1 [2, 3] = absLog L m1 dA.log
+    rw [hlog]; decide
+  · intro b c h
+    simp only [P, w1, lookupD] at h
+    by_cases hb : 5 = b
+    · subst hb; simp at h; subst h; rfl
+    · simp [hb] at h
+
+def newAbsP : (Nat × (Nat → Nat)) × List Nat :=
+  (absNew P (crun s0P cpreL).dur m1 w1, absLog L m1 (crun s0P cpreL).dur.log)
+
+theorem oldP_ne_newP : absOfL P L s0P.dur ≠ newAbsP := by
+  intro h
+  have := congrArg Prod.snd h
+  revert this
+  show absLog L d0P.mt [1, 2] = absLog L m1 (crun s0P cpreL).dur.log → False
+  rw [hlogP]
+  decide
+
 end NomtDisk.CToy
